@@ -449,7 +449,7 @@ func specialise(pkgs map[string]*packages.Package) ([]string, error) {
 func normaliseSyntax(pkgs map[string]*packages.Package) (int, []string, error) {
 	total := 0
 	var notes []string
-	for iter := 0; iter < 8; iter++ {
+	for iter := 0; iter < 40; iter++ {
 		n := normaliseOnce(pkgs)
 		if n > 0 {
 			if err := recheck(pkgs); err != nil {
@@ -462,7 +462,13 @@ func normaliseSyntax(pkgs map[string]*packages.Package) (int, []string, error) {
 			return total, notes, err
 		}
 		notes = append(notes, in...)
-		if n == 0 && len(in) == 0 {
+		// an extracted procedure with one call site goes back where it was called (one per package and round)
+		iv, err := inlineCalls(pkgs)
+		if err != nil {
+			return total, notes, err
+		}
+		notes = append(notes, iv...)
+		if n == 0 && len(in) == 0 && len(iv) == 0 {
 			break
 		}
 		total += n
@@ -485,6 +491,36 @@ func normaliseOnce(pkgs map[string]*packages.Package) int {
 			}
 			if id, ok := e.(*ast.Ident); ok && (id.Name == "nil" || id.Name == "true" || id.Name == "false") {
 				return info.Uses[id] == nil || info.Uses[id].Pkg() == nil
+			}
+			return false
+		}
+		// a call (possibly negated) of a function the pinned tree does not know: a candidate for being analysed in place
+		knownFn := map[string]bool{}
+		for _, a := range anchorSigs {
+			knownFn[a[0]+"::"+a[1]] = true
+		}
+		var extractedPred func(e ast.Expr) bool
+		extractedPred = func(e ast.Expr) bool {
+			switch x := e.(type) {
+			case *ast.ParenExpr:
+				return extractedPred(x.X)
+			case *ast.UnaryExpr:
+				return x.Op == token.NOT && extractedPred(x.X)
+			case *ast.CallExpr:
+				id, ok := x.Fun.(*ast.Ident)
+				if !ok {
+					return false
+				}
+				fn, ok := info.Uses[id].(*types.Func)
+				return ok && fn.Pkg() == p.Types && !fn.Exported() && !knownFn[path+"::"+fn.Name()] && fn.Type().(*types.Signature).Recv() == nil
+			}
+			return false
+		}
+		anyExtracted := func(ds []ast.Expr) bool {
+			for _, d := range ds {
+				if extractedPred(d) {
+					return true
+				}
 			}
 			return false
 		}
@@ -796,6 +832,55 @@ func normaliseOnce(pkgs map[string]*packages.Package) int {
 				}
 				return true
 			})
+			// (r) a plain block statement `{ … }` whose declarations neither clash with its surrounding block's nor
+			// capture a name that later statements of that block use dissolves into it
+			astutil.Apply(f, nil, func(c *astutil.Cursor) bool {
+				outer, ok := c.Node().(*ast.BlockStmt)
+				if !ok {
+					return true
+				}
+				for i := 0; i < len(outer.List); i++ {
+					in, ok := outer.List[i].(*ast.BlockStmt)
+					if !ok {
+						continue
+					}
+					names := declaredIn(in)
+					if len(names) > 0 {
+						has := declaredIn(&ast.BlockStmt{List: append(append([]ast.Stmt{}, outer.List[:i]...), outer.List[i+1:]...)})
+						clash := false
+						for nm := range names {
+							if has[nm] {
+								clash = true
+							}
+						}
+						if sc := info.Scopes[outer]; sc != nil {
+							for nm := range names {
+								if sc.Lookup(nm) != nil {
+									clash = true
+								}
+							}
+						}
+						for _, later := range outer.List[i+1:] {
+							ast.Inspect(later, func(m ast.Node) bool {
+								if id, ok := m.(*ast.Ident); ok && names[id.Name] {
+									clash = true
+								}
+								return true
+							})
+						}
+						if clash {
+							continue
+						}
+					}
+					nl := append([]ast.Stmt{}, outer.List[:i]...)
+					nl = append(nl, in.List...)
+					nl = append(nl, outer.List[i+1:]...)
+					outer.List = nl
+					n++
+					i--
+				}
+				return true
+			})
 			// (q) `else { if c {…} }` is `else if c {…}`
 			ast.Inspect(f, func(nd ast.Node) bool {
 				is, ok := nd.(*ast.IfStmt)
@@ -1082,6 +1167,63 @@ func normaliseOnce(pkgs map[string]*packages.Package) int {
 				}
 				return true
 			})
+			// (s) around a call of an extracted predicate, `||` is sequence: `if a || h(x) || b {return V}` is
+			// `if a {return V}; if h(x) {return V}; if b {return V}`, and `return a || h(x) || b` is the same
+			// with `true` and a final `return b` — so that the predicate's call becomes a guard or a tail call
+			astutil.Apply(f, nil, func(c *astutil.Cursor) bool {
+				body, ok := c.Node().(*ast.BlockStmt)
+				if !ok {
+					return true
+				}
+				simple := func(rt *ast.ReturnStmt) bool {
+					for _, e := range rt.Results {
+						switch e.(type) {
+						case *ast.Ident, *ast.BasicLit:
+						default:
+							return false
+						}
+					}
+					return true
+				}
+				var out []ast.Stmt
+				changed := false
+				for _, st := range body.List {
+					switch x := st.(type) {
+					case *ast.IfStmt:
+						ds := disjuncts(x.Cond)
+						if x.Init == nil && x.Else == nil && len(ds) > 1 && len(x.Body.List) == 1 && anyExtracted(ds) {
+							if rt, ok := x.Body.List[0].(*ast.ReturnStmt); ok && simple(rt) {
+								for _, d := range ds {
+									out = append(out, &ast.IfStmt{If: x.If, Cond: d, Body: &ast.BlockStmt{Lbrace: x.Body.Lbrace, List: []ast.Stmt{&ast.ReturnStmt{Return: rt.Return, Results: append([]ast.Expr{}, rt.Results...)}}, Rbrace: x.Body.Rbrace}})
+								}
+								changed = true
+								n++
+								continue
+							}
+						}
+					case *ast.ReturnStmt:
+						if len(x.Results) == 1 {
+							ds := disjuncts(x.Results[0])
+							if len(ds) > 1 && anyExtracted(ds) {
+								if t := info.TypeOf(x.Results[0]); t != nil && isBoolType(t) {
+									for _, d := range ds[:len(ds)-1] {
+										out = append(out, &ast.IfStmt{If: x.Return, Cond: d, Body: &ast.BlockStmt{Lbrace: x.Return, List: []ast.Stmt{&ast.ReturnStmt{Return: x.Return, Results: []ast.Expr{&ast.Ident{NamePos: x.Return, Name: "true"}}}}, Rbrace: x.Return}})
+									}
+									out = append(out, &ast.ReturnStmt{Return: x.Return, Results: []ast.Expr{ds[len(ds)-1]}})
+									changed = true
+									n++
+									continue
+								}
+							}
+						}
+					}
+					out = append(out, st)
+				}
+				if changed {
+					body.List = out
+				}
+				return true
+			})
 			// (i) `if c {return true}; return E` is `return c || E`; `if c {return false}; return E` is `return !c && E`
 			astutil.Apply(f, nil, func(c *astutil.Cursor) bool {
 				body, ok := c.Node().(*ast.BlockStmt)
@@ -1106,6 +1248,9 @@ func normaliseOnce(pkgs map[string]*packages.Package) int {
 					is, ok := body.List[len(body.List)-2].(*ast.IfStmt)
 					if !ok || is.Else != nil || len(is.Body.List) != 1 {
 						break
+					}
+					if anyExtracted(disjuncts(is.Cond)) {
+						break // stays a guard: the predicate is analysed in place (pass s, inlineCalls)
 					}
 					if is.Init != nil {
 						// the init moves in front when what it declares is new to the block
